@@ -908,7 +908,9 @@ def r414(e: Engine, rep: Report):
         n += 1
         rep.evaluations += 1
         own = [nm for nm in ('find_class', 'persistent_load')
-               if nm in c.methods]
+               if nm in c.methods and any(
+                   isinstance(y, ast.Raise)
+                   for y in walk_own(c.methods[nm].node))]
         rep.check(not own, 'R4.14', cq,
                   'loader `%s` looks classes up as pickle does' % c.name,
                   '%s overrides %s of the Unpickler the store loads its '
